@@ -5,5 +5,6 @@ CONSTANTS
 INVARIANT SkipExact
 INVARIANT UnwrapWrap
 INVARIANT ScalarLaw
+INVARIANT PatchLaw
 INVARIANT Emit
 CHECK_DEADLOCK FALSE
